@@ -361,6 +361,109 @@ func runStreamWrite(setup string, v Val) string {
 	})
 }
 
+type recSink struct{ chunks [][]byte }
+
+func (s *recSink) Write(p []byte) (int, error) {
+	s.chunks = append(s.chunks, append([]byte(nil), p...))
+	return len(p), nil
+}
+
+// runSeq: a sequence of messages through ONE reused writer, Flush after each; the flushed chunks.
+// setup: d (DefaultWriter over a recording sink) | b<cap> (BytesWriter over a buffer of that capacity)
+func runSeq(setup string, vs []Val) string {
+	return lib.Guard(func() string {
+		var w bufiox.Writer
+		sink := &recSink{}
+		var target []byte
+		isBytes := setup[0] == 'b'
+		if isBytes {
+			c, _ := strconv.Atoi(setup[1:])
+			target = make([]byte, 0, c)
+			w = bufiox.NewBytesWriter(&target)
+		} else {
+			w = bufiox.NewDefaultWriter(sink)
+		}
+		bw := thrift.NewBufferWriter(w)
+		out := "ok"
+		for _, v := range vs {
+			n0 := len(sink.chunks)
+			if err := streamWrite(bw, v); err != nil {
+				return "err " + lib.ErrStr(err)
+			}
+			if err := w.Flush(); err != nil {
+				return "err " + lib.ErrStr(err)
+			}
+			if isBytes {
+				out += " " + lib.Hex(target)
+			} else {
+				var all []byte
+				for _, c := range sink.chunks[n0:] {
+					all = append(all, c...)
+				}
+				out += " " + lib.Hex(all)
+			}
+		}
+		return out
+	})
+}
+
+func opSeq(setup string, vs []Val) {
+	f := []string{"wire", "w-seq", setup}
+	for i, v := range vs {
+		if i > 0 {
+			f = append(f, "/")
+		}
+		f = append(f, v.Toks()...)
+	}
+	res := runSeq(setup, vs)
+	em.Count("w-seq:" + setup[:1] + ":" + firstTok(res))
+	em.Line(res, f...)
+}
+
+// genSeqs: k = 2..4 messages through one reused writer, at least one long enough to make the buffer grow
+func genSeqs(r *lib.Rng, n int, msgOnly bool) {
+	small := func() Val {
+		if msgOnly {
+			return Val{K: "msg", S: content(r, r.Intn(12)), MsgTyp: int32(r.Intn(5)), I: int64(int32(r.U64()))}
+		}
+		switch r.Intn(6) {
+		case 0:
+			return Val{K: "i32", I: int64(int32(r.U64()))}
+		case 1:
+			return Val{K: "i64", I: int64(r.U64())}
+		case 2:
+			return Val{K: "field", T: r.Pick(2, 8, 11, 12), I: int64(int16(r.U64()))}
+		case 3:
+			return Val{K: "map", T: 11, T2: 8, N: r.Intn(1 << 20)}
+		case 4:
+			return Val{K: "msg", S: content(r, r.Intn(12)), MsgTyp: int32(r.Intn(5)), I: int64(int32(r.U64()))}
+		default:
+			return Val{K: pickS(r, "string", "binary"), S: content(r, r.Intn(40))}
+		}
+	}
+	long := func() Val {
+		L := r.Pick(4090, 4093, 4096, 4097, 4100, r.Range(4090, 9000), r.Range(4090, 9000), 8192, 9000)
+		if msgOnly {
+			return Val{K: "msg", S: content(r, L), MsgTyp: int32(r.Intn(5)), I: int64(int32(r.U64()))}
+		}
+		return Val{K: pickS(r, "string", "binary"), S: content(r, L)}
+	}
+	for i := 0; i < n; i++ {
+		k := r.Range(2, 4)
+		at := r.Pick(0, 0, 0, r.Intn(k)) // mostly first: growth, Flush, then the next message
+		vs := make([]Val, k)
+		for j := range vs {
+			if j == at || r.Chance(1, 6) {
+				vs[j] = long()
+			} else {
+				vs[j] = small()
+			}
+		}
+		opSeq("d", vs)
+		opSeq(fmt.Sprintf("b%d", r.Pick(0, 16, 4096, 8192, 100)), vs)
+	}
+}
+
 func fieldToks(t thrift.TType, id int16) string {
 	if t == thrift.STOP {
 		return "stop"
@@ -1037,6 +1140,7 @@ func genC01(o *lib.Opts, r *lib.Rng) {
 		bundle(r, "typebyte-map", Val{K: "map", T: typeBoundary[t%len(typeBoundary)], T2: t, N: r.Intn(1 << 31)}, bo)
 	}
 	bundle(r, "stop", Val{K: "stop"}, full)
+	genSeqs(r, n/2+20, false)
 	// field ids: boundaries and single bits
 	for _, p := range i64Patterns(16) {
 		bundle(r, "field-id", Val{K: "field", T: r.Pick(2, 8, 11, 12, 15), I: p}, lite)
@@ -1193,6 +1297,7 @@ func genC12(o *lib.Opts, r *lib.Rng) {
 		nm := content(r, r.Pick(0, 1, r.Intn(12), r.Intn(80), r.Intn(600)))
 		bundle(r, "msg-random", Val{K: "msg", S: nm, MsgTyp: int32(r.U64()), I: int64(int32(r.U64()))}, lite)
 	}
+	genSeqs(r, n/8+10, true)
 	// 2. every first-word class on both readers, with a well-formed rest and with nothing after it
 	for _, w := range firstWords() {
 		rest := refEnc(Val{K: "msg", S: []byte("vv"), MsgTyp: 0, I: 9})[4:]
@@ -1313,6 +1418,23 @@ func replay(lines [][]string) {
 		case f[0] == "wire" && f[1] == "w-stream":
 			if v, ok := ParseVal(f[3:]); ok {
 				em.Line(runStreamWrite(f[2], v), f...)
+			}
+		case f[0] == "wire" && f[1] == "w-seq":
+			var vs []Val
+			ok := true
+			cur := []string{}
+			for _, t := range append(append([]string{}, f[3:]...), "/") {
+				if t == "/" {
+					v, o := ParseVal(cur)
+					ok = ok && o
+					vs = append(vs, v)
+					cur = []string{}
+				} else {
+					cur = append(cur, t)
+				}
+			}
+			if ok {
+				em.Line(runSeq(f[2], vs), f...)
 			}
 		case f[0] == "wire" && f[1] == "len":
 			if v, ok := ParseVal(f[2:]); ok {
